@@ -22,16 +22,25 @@ def args_of(c, trackfile):
         a += ["--tracking", trackfile, "--FPTrack", c["track"]]
     if c.get("start"):   # start from a results file written beforehand (an evolved distribution whose charge is not exactly one)
         a += ["-i", STARTFILE[c.get("n", 16)]]
+    for x in XTRA[c.get("x", 0)]:
+        if x == "--padding":      # replaces the base value
+            i = a.index("--padding"); del a[i:i + 2]
+        if x == "-I":
+            i = a.index("-I"); del a[i:i + 2]
+    a += XTRA[c.get("x", 0)]
     if c.get("mod"):     # deterministic RF phase modulation (the modulation record is flushed in the output block)
         a += ["--RFPhaseModAmplitude", 0.01, "--RFPhaseModFrequency", 130000.0]
     return a
 
 
 STARTFILE = {}
+# rarely used options that belong to the physics / numerics of a run: whatever they are set to, observing must not change the results
+XTRA = [[], ["--CutoffFreq", 0], ["--CutoffFreq", 5e10], ["--InterpolationPoints", 3], ["--InterpolateClamped", "true"], ["--derivation", 3], ["--RoundPadding", "false", "--padding", 2.3],
+        ["--FPType", 1], ["--alpha1", 1e-4], ["--WallConductivity", 1.4e6], ["-I", 1e-3, 0, 2e-3]]
 
 
 def phys_key(c):
-    return (c["renorm"], c["rf"], c.get("imp", "collimator"), c.get("n", 16), c.get("mod", 0), c.get("start", 0))
+    return (c["renorm"], c["rf"], c.get("imp", "collimator"), c.get("n", 16), c.get("mod", 0), c.get("start", 0), c.get("x", 0))
 
 
 def records(doc):
@@ -87,10 +96,14 @@ def run(res, tier):
                 cfgs.append(dict(outstep=2, save=1, track=t, verbose=0, name="a", renorm=r, rf=rf, imp=imp, n=n, mod=mod, start=st))
             cfgs.append(dict(outstep=2, save=1, track=None, verbose=1, name="a", renorm=r, rf=rf, imp=imp, n=n, mod=mod, start=st))
             cfgs.append(dict(outstep=3, save=2, track=1, verbose=1, name="b_other_name", renorm=r, rf=rf, imp=imp, n=n, mod=mod, start=st))
+    for x in range(1, len(XTRA)):
+        for imp, renorm in (("csr", 0), ("collimator", 3)):
+            for o, s in itertools.product(outsteps, saves):
+                cfgs.append(dict(outstep=o, save=s, track=None, verbose=(o + s) % 2, name="a", renorm=renorm, rf="linear", imp=imp, n=16, mod=0, start=0, x=x))
     # the reference of every physics key: every step written, every phase space saved
     refs = {}
     for k in sorted(set(phys_key(c) for c in cfgs)):
-        refs[k] = dict(outstep=1, save=1, track=None, verbose=0, name="ref", renorm=k[0], rf=k[1], imp=k[2], n=k[3], mod=k[4], start=k[5])
+        refs[k] = dict(outstep=1, save=1, track=None, verbose=0, name="ref", renorm=k[0], rf=k[1], imp=k[2], n=k[3], mod=k[4], start=k[5], x=k[6])
 
     def do(ic):
         i, c, rep = ic
